@@ -13,7 +13,10 @@ A small declarative interpreter, written from the standard and not from the code
 * factored operands are multiplied by the alignment factors modulo 2^64 (offsets are reported in
   two's complement, like every consumer that stores them in 64-bit integers);
 * `DW_CFA_advance_loc*` must stay inside the address space of the CIE's address size,
-  `DW_CFA_set_loc` must not move backwards;
+  `DW_CFA_set_loc` must not move backwards (staying at the current location is accepted, like an
+  advance by 0 — the standard's "always greater" is a producer rule that no consumer enforces);
+* a table is not required to stay inside the FDE's range: the last row ends at the FDE's end
+  address even if the program advanced beyond it (that row then covers no address);
 * `DW_CFA_def_cfa_register / def_cfa_offset(_sf)` are valid only while the CFA rule is
   register+offset;
 * `DW_CFA_AARCH64_negate_ra_state` toggles bit 0 of the constant held by the `RA_SIGN_STATE`
